@@ -566,7 +566,18 @@ def job_hash(job):
 
 def main():
     job = json.load(sys.stdin)
-    if job["kind"] == "export":
+    if job["kind"] == "batch":
+        # several export jobs in one interpreter (importing Scenic dominates small maps)
+        import traceback
+        for j in job["jobs"]:
+            try:
+                o = job_export(j)
+            except Exception:  # noqa
+                o = {"name": j["name"], "crash": traceback.format_exc()[-3000:]}
+            with open(j["out"], "w") as f:
+                json.dump(o, f)
+        out = {"done": len(job["jobs"])}
+    elif job["kind"] == "export":
         out = job_export(job)
     elif job["kind"] == "hash":
         out = job_hash(job)
